@@ -158,6 +158,11 @@ class PyDriver:
                 except Exception as e:  # noqa
                     return 'err ' + err_name(e)
             fresh = attempt(A5Cell(origin=self.org.origins[o], segment=sg, S=s, resolution=r))
+            # the same record written with its keys in another order (a record is a mapping: the order of its keys carries no meaning)
+            shuffled = attempt(A5Cell(resolution=r, S=s, segment=sg, origin=self.org.origins[o]))
+            if shuffled != fresh:
+                return (f'err StateDependent serialize answers `{fresh}` for A5Cell(origin, segment, S, resolution) and `{shuffled}` for the same record '
+                        f'written as A5Cell(resolution, S, segment, origin)')
             # one record object reused across calls and updated in place, as a caller iterating over cells would do
             rec = self.__dict__.get('_rec')
             if rec is None:
